@@ -1,5 +1,5 @@
 (* wire encoding of C20 cases; exported functions are [x_*] : val -> val
-   case  = (cfg rounds)   cfg = (creds tracks sdpkind urlkind keepalive routed)
+   case  = (cfg rounds)   cfg = (creds tracks sdpkind urlkind keepalive routed split)  (split: DESCRIBE answer in two segments; not in the model)
    round = (again script) script = list of reply kinds 0..9
    observation per round = (outcome reqs mid again delivered final)
      reqs = list of (method auth session); mid = (conns registered counter goroutines);
